@@ -1161,14 +1161,13 @@ class CParser:
 
         if len(spec["type"]) == 1:
             node = spec["type"][0]
-            if isinstance(node, c_ast.Node):
-                decl_type = node
-            else:
-                decl_type = c_ast.IdentifierType(node)
-            self._expect("SEMI")
-            return self._build_declarations(
-                spec=spec, decls=[dict(decl=decl_type, init=None, bitsize=None)]
-            )
+            if isinstance(
+                node, (c_ast.Struct, c_ast.Union, c_ast.Enum, c_ast.IdentifierType)
+            ):
+                self._expect("SEMI")
+                return self._build_declarations(
+                    spec=spec, decls=[dict(decl=node, init=None, bitsize=None)]
+                )
 
         self._expect("SEMI")
         return self._build_declarations(
